@@ -12,7 +12,7 @@ THEOREMS = ['Nbdime.C04_insert_valid', 'Nbdime.C04_remove_valid', 'Nbdime.C04_ma
 
 
 def repair_known(m, minors):
-    """undo, on a copy, exactly the three recorded defects; returns (repaired notebook, tags that applied)"""
+    """undo, on a copy, exactly the recorded defects; returns (repaired notebook, tags that applied)"""
     m = copy.deepcopy(m)
     tags = []
     minor = m.get('nbformat_minor', 0)
@@ -26,6 +26,11 @@ def repair_known(m, minors):
                 if k.startswith(('LOCAL_', 'REMOTE_')) and not isinstance(at[k], dict):
                     del at[k]
                     tags.append('F-attach-level')
+    if minor < 5 and len(set(minors)) > 1 and max(minors) >= 5:
+        for c in m.get('cells', []):
+            if 'id' in c and not (c.get('cell_type') == 'markdown' and str(c.get('source', '')).startswith('<span style="color:red"><b>')):
+                del c['id']
+                tags.append('F-minor-lowered')
     if minor >= 5 and len(set(minors)) > 1:
         n = 0
         for c in m.get('cells', []):
@@ -44,6 +49,22 @@ def _known(tag):
 
 vlib.classifier('marker-id-pre45')(_known('F-markerid'))
 vlib.classifier('takemax-minor')(_known('F-minor'))
+
+
+def expected_minor(minors):
+    """what the documented rule gives: a one-sided change is adopted, a two-sided one takes the maximum"""
+    b, l, r = minors
+    if l == b:
+        return r
+    if r == b or l == r:
+        return l
+    return max(b, l, r)
+
+
+@vlib.classifier('minor-lowered')
+def _cls_minor_lowered(data, finding):
+    # only while the declared minor is the one the documented rule gives (a different one is a new violation)
+    return _known('F-minor-lowered')(data, finding) and data.get('minor') == expected_minor(data.get('minors', [0, 0, 0]))
 vlib.classifier('attachment-level')(_known('F-attach-level'))
 
 
